@@ -371,6 +371,35 @@ def run(ctx):
                      "(__j.captured_at is None)", True) and \
                 U.guarded(cfg, x, "'processing' in filters", True):
             proc_ok = True
+    # ... and a job is reported as found only when it passed both filters:
+    # every path from the loop head to the in-loop `return True` goes
+    # through a branch edge that establishes "no such filter" or "matches"
+    found = [x for x in cfg.nodes if x.kind == 'stmt' and
+             isinstance(x.ast, ast.Return) and
+             x.ast.value is not None and norm(x.ast.value) == 'True' and
+             loops and any(y is x.ast for y in ast.walk(loops[0]))]
+    heads = [x for x in cfg.nodes if x.kind == 'for']
+
+    def established(*facts):
+        out = []
+        for pat, truth in facts:
+            out += U.nodes_where(cfg, pat, truth)
+        return out
+    if found and heads:
+        kfacts = established(
+            ("filters and 'key' in filters and filters['key'] != __j.key",
+             False), ("'key' in filters", False), ('filters', False),
+            ("filters['key'] == __j.key", True))
+        pfacts = established(
+            ("filters and 'processing' in filters", False),
+            ("'processing' in filters", False), ('filters', False),
+            ("filters['processing'] is (__j.captured_at is None)", False))
+        key_ok = key_ok and all(cfg.must_pass(heads[0], kfacts, exits=[x])
+                                for x in found)
+        proc_ok = proc_ok and all(cfg.must_pass(heads[0], pfacts, exits=[x])
+                                  for x in found)
+    else:
+        key_ok = proc_ok = False
     r7.check(ok and key_ok, ctx.construct(hs, extra='key filter'),
              'in-memory jobs with another key are not skipped', ctx.loc(hs))
     r7.check(ok and proc_ok, ctx.construct(hs, extra='processing filter'),
